@@ -188,6 +188,10 @@ theorem produce_good : goodFor "produce" [2, 3, 7] = true := by decide
 
 theorem fetch_fixed : fetchFixed = true := by decide
 
+/-- `do` and `Batch.close` close the connection on exactly the non-kafka errors (regenerated; `connFetch` closes on every
+failed outcome, and failed = non-kafka there) -/
+theorem close_rules_hold : Gen.ConnLegacy.doClosesNonKafka = true ∧ Gen.ConnLegacy.batchClosesNonKafka = true := by decide
+
 /-! ### the regenerated parser programs are the Kafka layouts (Spec/ConnFrames.lean, transcribed independently) -/
 
 open KV.Gen.ConnLegacy KV.Spec.ConnFrames in
